@@ -767,6 +767,11 @@ def _run_child(plan):
         new_other = ph["new_other"]
         clobbered = ph["clobbered"]
         io_fault = any(x["kind"] in ("io", "interrupt", "crash") for x in inj.fired)
+        # a neighbour that takes the directory's write permission (or the directory) away mid-run makes the command's
+        # own later calls fail: from the command's point of view that IS an I/O error, and the same narrow
+        # relaxation applies (it may fail and leave behind a prefix of the right data, never anything else)
+        io_fault = io_fault or any(x["kind"] == "race" and x.get("effective") and
+                                   x.get("action") in ("chmod_parent_ro", "rm_parent") for x in inj.fired)
         served_text = ph["served_text"]
         # ---- API twin (only when something has to be compared)
         twin = None
@@ -837,7 +842,9 @@ def _run_child(plan):
                         add("C20/served-mismatch", {"clause": "B-stdout", "paranoia": req["paranoia"]},
                             dict(ctx, diff=_first_diff(out, Jx + os.linesep)))
                     if new_files:
-                        add("C20/served-extra-file", {"clause": "B-extra-file"}, dict(ctx, new_files=sorted(new_files)))
+                        # informational: the statement asks for the right JSON on the requested channel; it does not
+                        # forbid a further file (C15 scans every new file for secrets in paranoia mode)
+                        stats_extra["served_with_extra_file"] = 1
                 else:
                     if served_text is None or not same_json(served_text, Jx):
                         add("C20/served-mismatch", {"clause": "B-file", "paranoia": req["paranoia"]},
@@ -846,7 +853,7 @@ def _run_child(plan):
                         add("C20/served-file-and-stdout", {"clause": "B-stdout-data-with-file"},
                             dict(ctx, stdout_kinds=out_kinds))
                     if len(new_files) > 1:
-                        add("C20/served-extra-file", {"clause": "B-extra-file"}, dict(ctx, new_files=sorted(new_files)))
+                        stats_extra["served_with_extra_file"] = 1
                 # row shape of what was served
                 try:
                     doc = json.loads(served_text or "")
